@@ -35,7 +35,26 @@ type worker struct {
 }
 
 func (w *worker) write(l jline) {
-	b, _ := json.Marshal(l)
+	b, err := json.Marshal(l)
+	if err != nil && l.R != nil {
+		// e.g. a NaN/Inf float inside a witness or sample: keep the verdict, drop the payload
+		r := *l.R
+		r.Sample = nil
+		vs := make([]Violation, len(r.Violations))
+		copy(vs, r.Violations)
+		for i := range vs {
+			vs[i].Witness = fmt.Sprintf("(witness not serialisable: %v)", err)
+		}
+		r.Violations = vs
+		if len(vs) == 0 && r.Inconclusive == "" {
+			r.Count("results_with_unserialisable_payload", 1)
+		}
+		l.R = &r
+		b, err = json.Marshal(l)
+	}
+	if err != nil {
+		b, _ = json.Marshal(jline{T: l.T, I: l.I, R: &Result{Inconclusive: "harness: result not serialisable: " + err.Error()}})
+	}
 	b = append(b, '\n')
 	w.jf.Write(b)
 }
